@@ -243,9 +243,16 @@ package cgroup
 // V1.New: every controller directory recorded in the new handle's `all` list (the ones Destroy and the
 // error clean-up remove) was created by this call; a directory that already existed is never listed.
 // (slicelit names the literal table of (parent controller, slot in the new handle) pairs the loop ranges over.)
-//@ func pkg/cgroup.initCpuset
-//@   trusted "copies cpuset.cpus / cpuset.mems from the parent (file contents only)"
-//@   pure
+// cpuset initialisation: the only file written is the named property of the group's OWN directory, with the
+// bytes read from the parent's file of the same name (C20: a handle writes to its own group only)
+//@ func pkg/cgroup.copyCgroupPropertyFromParent props C20
+//@   arith int
+//@   assigns nothing
+//@   callsite os.WriteFile: assert @C20 name == joined(path, caller_name) && data == b
+//@ func pkg/cgroup.initCpuset props C20
+//@   arith int
+//@   assigns nothing
+//@   loop 0: invariant -1 <= rangeindex && rangeindex < 2 && len(slicelit) == 2
 //@ func pkg/cgroup.(*V1).New$1 props C20
 //@   arith int
 //@   requires v1 != nil && forall k int :: 0 <= k && k < len(v1.all) ==> v1.all[k] != nil
